@@ -62,20 +62,28 @@ def len_compared_consts(body, facts=None):
             if st.kind == "assign" and st.rv.kind == "binop" and st.rv.j["op"] in ("Eq", "Ne", "Lt", "Le", "Gt", "Ge"):
                 a, c = st.rv.operands()
                 for x, y in ((a, c), (c, a)):
-                    if y.is_const() and y.const_int() is not None:
+                    yv = y.const_int() if y.is_const() else None
+                    if yv is None and not y.is_const():
+                        yt = du.operand_term(y, 6)           # a constant parked in a local (`_19 = const 2_usize; Eq(_17, _19)`)
+                        while yt[0] in ("var", "cast"):
+                            yt = yt[3] if yt[0] == "var" else yt[1]
+                        if yt[0] == "const" and yt[1] == "int":
+                            yv = yt[2]
+                    if yv is not None:
                         xt = du.operand_term(x, 8)
                         px = xt
                         while px[0] in ("var", "cast"):
                             px = px[3] if px[0] == "var" else px[1]
-                        if px[0] == "call" and callee_name(px) == "len":
-                            out.setdefault((st.rv.j["op"], y.const_int()), []).append((b.idx, st.line))
+                        if (px[0] == "call" and callee_name(px) == "len") or (px[0] == "unop" and px[1] == "PtrMetadata"):
+                            # `.len()`, or the length test of a slice pattern (`[a, b] => ..` reads the slice's metadata)
+                            out.setdefault((st.rv.j["op"], yv), []).append((b.idx, st.line))
         t = b.term
         if t.kind == "switch" and t.j.get("discr_ty") == "usize":
             dt = du.operand_term(t.discr, 8)
             pd = dt
             while pd[0] in ("var", "cast"):
                 pd = pd[3] if pd[0] == "var" else pd[1]
-            if pd[0] == "call" and callee_name(pd) == "len":
+            if (pd[0] == "call" and callee_name(pd) == "len") or (pd[0] == "unop" and pd[1] == "PtrMetadata"):
                 for v, _tg in t.j["targets"]:
                     out.setdefault(("Eq", v), []).append((b.idx, t.line))
     return out
